@@ -104,6 +104,8 @@ def invalid_values(spec, name, attr):
         if wrong:
             out.append(("list_with_wrong_class", ["refs", list(cur[1]) + [wrong[0]]], STRONG))
             out.append(("list_only_wrong_class", ["refs", [wrong[-1]]], STRONG))
+            # ... the wrong object as one gets it when reading it from another link of the model (a wrapper)
+            out.append(("list_with_wrong_class_read_from_model", ["refs_read", list(cur[1]) + [wrong[0]]], STRONG))
         out.append(("list_with_non_object", ["rawrefs", list(cur[1]), 3.5], STRONG))
         out.append(("wrong_type_quantity", ["q", 1.0, "dimensionless"], STRONG))
     elif kind == "link":
@@ -114,6 +116,7 @@ def invalid_values(spec, name, attr):
                  and spec["objs"][n]["cls"] != "System"]
         if wrong:
             out.append(("link_wrong_class", ["ref", wrong[0]], WEAK))
+            out.append(("link_wrong_class_read_from_model", ["ref_read", wrong[0]], WEAK))
         out.append(("wrong_type_quantity", ["q", 1.0, "dimensionless"], STRONG))
         out.append(("wrong_type_float", ["raw", 3.5], STRONG))
     return out
@@ -137,6 +140,11 @@ def catalogue(spec, cls_name):
 # ---------------------------------------------------------------------------------------------------
 # C15: edits that validation accepts and that make an update function raise.  Magnitudes are derived
 # from the current live state so that the real code really raises (naive ones do not fire).
+
+def _mag_raw(mag, unit, new_unit):
+    from efootprint.constants.units import u
+    return u.Quantity(float(mag), unit).to(new_unit).magnitude
+
 
 def _mag(q, unit):
     import copy as _copy
@@ -194,7 +202,14 @@ def failing_edits(sim, rng):
                         out.append({"op": "group", "fault": "F2", "expect_site": "update_nb_of_instances", "changes": [
                             {"obj": n, "attr": "server_type", "value": ["s", "on-premise"]},
                             {"obj": n, "attr": "fixed_nb_of_instances", "value": bad_fixed}]})
-        elif cls in ("VideoStreaming",):
+        if cls in S.SERVER_CLASSES:
+            # a storage already used by another server: accepted by validation, refused by the storage while recomputing
+            others = sorted({spec["objs"][m]["attrs"]["storage"][1] for m in spec["order"]
+                             if spec["objs"][m]["cls"] in S.SERVER_CLASSES and m != n} - {o["attrs"]["storage"][1]})
+            if others:
+                out.append({"op": "set", "obj": n, "attr": "storage", "value": ["ref", rng.choice(others)], "fault": "F2",
+                            "expect_site": "storage_shared_by_two_servers"})
+        if cls in ("VideoStreaming",):
             srv = w.objs[o["attrs"]["server"][1]]
             try:
                 cap = _mag(srv.ram, "GB") * _mag(srv.server_utilization_rate, "dimensionless")
@@ -205,6 +220,17 @@ def failing_edits(sim, rng):
             cur = o["attrs"]["llm_memory_factor"]
             setq(n, "llm_memory_factor", cur[1] * 1e4 * f, cur[2], "update_available_ram_per_instance")
         elif cls == "Storage":
+            try:
+                delta = obj.storage_delta
+                if not isinstance(delta, EmptyExplainableObject):
+                    unit = o["attrs"]["base_storage_need"][2]
+                    lowest = float(np.min(np.cumsum(np.asarray(delta.value["value"].values._data, dtype=float))))
+                    lowest = float(_mag_raw(lowest, str(delta.unit), unit))
+                    if lowest < 0:
+                        # data is deleted: a base need that does not cover the lowest point of the cumulated deltas
+                        setq(n, "base_storage_need", -lowest / f, unit, "update_full_cumulative_storage_need")
+            except Exception:
+                pass
             raw = obj.raw_nb_of_instances
             if not isinstance(raw, EmptyExplainableObject):
                 peak = math.ceil(float(np.max(raw.value["value"].values._data)))
